@@ -228,6 +228,8 @@ def triage(prop, ent, known):
     if v0['cls'] == 'watchdog:timeout' and v1 is None:
         log('watchdog kill did not reproduce (worker starved on a loaded machine): ignored')
         return ('known', '__starved__')
+    if v0['cls'] == 'watchdog:timeout' and v1 is not None and v1['cls'] != 'watchdog:timeout':
+        v0 = v1  # starved worker; alone the history ends quickly with this outcome, which is what gets judged
     if v1 is None or (v1['cls'], v1['site']) != (v0['cls'], v0['site']):
         # gate (1): must reproduce alone in a fresh process
         log('alarm did not reproduce in a fresh process:', v0, '->', v1)
